@@ -153,6 +153,10 @@ pub fn is_tls_traffic(payload: &[u8]) -> bool {
 /// - `Ok(None)` if TLS record is valid but doesn't contain ClientHello (e.g., ServerHello, Alert)
 /// - `Err(HuginnNetTlsError)` if parsing failed
 pub fn parse_tls_client_hello(data: &[u8]) -> Result<Option<Signature>, HuginnNetTlsError> {
+    #[cfg(feature = "verif-hooks")]
+    if let Some(parser) = verif_hooks::parser_override() {
+        return parser(data);
+    }
     debug!("Parsing TLS ClientHello, data_len={}", data.len());
 
     // Try to extract only the first complete TLS record if data is fragmented
@@ -352,5 +356,26 @@ pub fn determine_tls_version(
             debug!("Unknown/unsupported TLS version {:?}, defaulting to TLS 1.2", legacy_version);
             TlsVersion::V1_2
         }
+    }
+}
+
+/// Verification hooks (feature `verif-hooks`, default off): let a harness replace the
+/// tls-parser based ClientHello parser by its own function (a call recorder), in the model
+/// checker and in the native replay alike.
+#[cfg(feature = "verif-hooks")]
+pub mod verif_hooks {
+    use super::{HuginnNetTlsError, Signature};
+
+    pub type Parser = fn(&[u8]) -> Result<Option<Signature>, HuginnNetTlsError>;
+
+    static mut PARSER_OVERRIDE: Option<Parser> = None;
+
+    /// Not thread safe: meant for single-threaded harnesses.
+    pub fn set_parser_override(parser: Option<Parser>) {
+        unsafe { PARSER_OVERRIDE = parser }
+    }
+
+    pub(super) fn parser_override() -> Option<Parser> {
+        unsafe { PARSER_OVERRIDE }
     }
 }
